@@ -6,26 +6,37 @@ VERIF = os.path.dirname(os.path.dirname(os.path.abspath(__file__)))
 COQ = os.path.join(VERIF, "coq")
 PY2COQ_PIDS = {"C02", "C04", "C05", "C09", "C10", "C14", "C16", "C17"}
 CHAIN = ["Gen/PyGen.v", "Proofs/Equiv_proofs.v", "Equiv/Equiv.v"]
+# translator script, generated file, files to re-check after it, properties whose Props file refers to them
+TRANSLATORS = {
+    "py2coq": ("py2coq.py", "Gen/PyGen.v", CHAIN, PY2COQ_PIDS),
+    "server": ("py2coq_server.py", "Gen/ServerGen.v", ["Gen/ServerGen.v", "Proofs/EquivServer_proofs.v", "Equiv/EquivServer.v"], {"C01", "C04", "C07", "C15"}),
+}
+def translators_for(pid):
+    return [k for k, v in TRANSLATORS.items() if pid in v[3]]
 
 def _fresh(v):
     vo = os.path.join(COQ, v[:-2] + ".vo")
     return os.path.exists(vo) and os.path.getmtime(vo) >= os.path.getmtime(os.path.join(COQ, v))
 
 def regen_py2coq():
+    return regen("py2coq")
+
+def regen(which):
     """-> (ok, message, info)"""
+    script, genfile, CHAIN, _ = TRANSLATORS[which]
     lock = open(os.path.join(VERIF, ".build.lock2"), "w")
     fcntl.flock(lock, fcntl.LOCK_EX)
     try:
-        out = os.path.join(COQ, "Gen", "PyGen.v")
+        out = os.path.join(COQ, genfile)
         tmp = out + ".new"
-        rc = subprocess.run(["python3", os.path.join(VERIF, "translate", "py2coq.py"), tmp], capture_output=True, text=True)
+        rc = subprocess.run(["python3", os.path.join(VERIF, "translate", script), tmp], capture_output=True, text=True)
         if rc.returncode != 0:
             try: os.unlink(tmp)
             except OSError: pass
-            return False, "py2coq refused the source (outside the translated subset): " + (rc.stdout + rc.stderr)[-1200:], {}
+            return False, script + " refused the source (outside the translated subset): " + (rc.stdout + rc.stderr)[-1200:], {}
         new = open(tmp).read()
         old = open(out).read() if os.path.exists(out) else None
-        info = {"generated_sha1": hashlib.sha1(new.encode()).hexdigest(), "changed": new != old}
+        info = {"generated_file": genfile, "generated_sha1": hashlib.sha1(new.encode()).hexdigest(), "changed": new != old}
         if new != old:
             os.replace(tmp, out)
         else:
